@@ -22,6 +22,7 @@ EXPLANATION = (
     'quantify over runtime values and are not decided.'
     ' The leaf numbering under a variable is accepted in three spellings (threaded index, shared counter, enumerate over a left-to-right generator); every leaf path is judged.'
     " Fourth round: Functor.functor and the slash operators (rules of C13) are conditions of 'a bound sub-category is handed out as it was matched'."
+    ' Fifth round: the bindings reader replaces bound features as a whole and nothing else; every shared variable position is tested, independently of earlier bindings.'
 )
 TRUSTED = ['CPython ast', 'sa/pysym.py path walker', 'rule table DESIGN.md C06']
 
